@@ -6,4 +6,8 @@ if ! $PY -c "import hypothesis" 2>/dev/null; then
   /venv/bin/pip install --no-index --find-links /opt/veriftools/wheels hypothesis || exit 1
 fi
 $PY -c "import hypothesis; print('hypothesis', hypothesis.__version__)" || exit 1
+# optional amplifier for the thorough tier of C01: atheris into .deps (not needed by any quick check)
+if [ ! -d .deps/atheris ] && ls /opt/veriftools/wheels/atheris-*cp312* >/dev/null 2>&1; then
+  /venv/bin/pip install -q --no-index --find-links /opt/veriftools/wheels --target .deps atheris >/dev/null 2>&1 || echo "atheris not installed (thorough C01 falls back to Hypothesis only)"
+fi
 exit 0
